@@ -733,7 +733,8 @@ class CallsMixin:
                 if env[p].loc is not None and cv.loc is None:
                     cv = V(cv.ty, cv.t, env[p].loc)
                 env[p] = cv
-        if spec.get('assumed'):
+        if spec.get('assumed') or not spec.get('verified_as'):
+            # an inline spec of a callee that is not itself under contract here: part of the trusted base
             self.assumed.append(label)
         if spec.get('pure_expr'):
             # a side-effect free callee whose result is a function of its arguments (usable under quantifiers)
